@@ -359,6 +359,13 @@ def tlsConnect {Cert : Type} (validName : String → Bool) (verify : Cert → St
     if verify cert h.hostname then .established h.hostname else .handshakeError h.hostname
   else .invalidInput
 
+/-- Several calls on ONE `TlsConnectorService` instance (or on clones of it), in order: the service holds
+nothing but its TLS configuration, so every call is `tlsConnect` of its own request — the name
+verified is never one remembered from an earlier call. -/
+def tlsConnectMany {Cert : Type} (validName : String → Bool) (verify : Cert → String → Bool)
+    (calls : List (Host × Cert)) : List TlsOutcome :=
+  calls.map fun c => tlsConnect validName verify c.1 c.2
+
 /-! ## Name syntax accepted by the TLS libraries, certificate coverage (driver-side environment) -/
 
 /-- `rustls_pki_types::DnsName` validation (server_name.rs `validate`): the label state machine -/
